@@ -53,6 +53,7 @@ type msgtableRow struct {
 	servicesRegistered       bool
 	validateCreator          bool
 	hasCreatorField          bool
+	amino                    string // name under which the type's amino-JSON sign bytes carry it ("" = bare field object)
 	src                      string
 }
 
@@ -251,6 +252,13 @@ func msgtableValidatesCreator(p *packages.Package, fd *ast.FuncDecl) bool {
 	return found
 }
 
+func coqOptString(s string) string {
+	if s == "" {
+		return "None"
+	}
+	return "(Some " + CoqString(s) + ")"
+}
+
 func genMsgTable(c *Ctx) (string, string, error) {
 	rows := []*msgtableRow{}
 	var prov []string
@@ -414,6 +422,137 @@ func genMsgTable(c *Ctx) (string, string, error) {
 			return true
 		})
 
+		// ---- amino names: RegisterConcrete(&T{}, "name", nil) inside a func F of codec.go, effective for the sign
+		// bytes only if init() calls F(Amino) and ModuleCdc is codec.NewAminoCodec(Amino)
+		aminoNames := map[string]string{}
+		aminoFuncs := map[string]bool{}
+		for fname, fd := range funcs {
+			if fd.Body == nil || strings.Contains(fname, ".") {
+				continue
+			}
+			ast.Inspect(fd.Body, func(n ast.Node) bool {
+				call, ok := n.(*ast.CallExpr)
+				if !ok || len(call.Args) != 3 {
+					return true
+				}
+				if _, nm := msgtableCallee(tp, call); nm != "RegisterConcrete" {
+					return true
+				}
+				u, ok := call.Args[0].(*ast.UnaryExpr)
+				if !ok || u.Op != token.AND {
+					return true
+				}
+				cl, ok := u.X.(*ast.CompositeLit)
+				if !ok {
+					return true
+				}
+				id, ok := cl.Type.(*ast.Ident)
+				lit, ok2 := call.Args[1].(*ast.BasicLit)
+				if !ok || !ok2 {
+					return true
+				}
+				if nm, err := strconv.Unquote(lit.Value); err == nil {
+					aminoNames[id.Name+"@"+fname] = nm
+					aminoFuncs[fname] = true
+				}
+				return true
+			})
+		}
+		aminoEffective := map[string]bool{} // F -> init() calls F(Amino)
+		for _, d := range cdf.Decls { // (a package has several init functions: the ones of codec.go)
+			in, ok := d.(*ast.FuncDecl)
+			if !ok || in.Name.Name != "init" || in.Recv != nil || in.Body == nil {
+				continue
+			}
+			ast.Inspect(in.Body, func(n ast.Node) bool {
+				call, ok := n.(*ast.CallExpr)
+				if !ok || len(call.Args) != 1 {
+					return true
+				}
+				f, ok := call.Fun.(*ast.Ident)
+				a, ok2 := call.Args[0].(*ast.Ident)
+				if ok && ok2 && aminoFuncs[f.Name] && a.Name == "Amino" {
+					aminoEffective[f.Name] = true
+				}
+				return true
+			})
+		}
+		moduleCdcOnAmino := false
+		ast.Inspect(cdf, func(n ast.Node) bool {
+			vs, ok := n.(*ast.ValueSpec)
+			if !ok {
+				return true
+			}
+			for i, nm := range vs.Names {
+				if nm.Name != "ModuleCdc" || i >= len(vs.Values) {
+					continue
+				}
+				if call, ok := vs.Values[i].(*ast.CallExpr); ok && len(call.Args) == 1 {
+					if _, cn := msgtableCallee(tp, call); cn == "NewAminoCodec" {
+						if a, ok := call.Args[0].(*ast.Ident); ok && a.Name == "Amino" {
+							moduleCdcOnAmino = true
+						}
+					}
+				}
+			}
+			return true
+		})
+		// GetSignBytes of T is `bz := ModuleCdc.MustMarshalJSON(msg); return sdk.MustSortJSON(bz)`
+		stdSignBytes := func(typ string) bool {
+			fd := funcs[typ+".GetSignBytes"]
+			if fd == nil || fd.Body == nil || len(fd.Body.List) != 2 {
+				return false
+			}
+			as, ok := fd.Body.List[0].(*ast.AssignStmt)
+			if !ok || len(as.Rhs) != 1 || len(as.Lhs) != 1 {
+				return false
+			}
+			call, ok := as.Rhs[0].(*ast.CallExpr)
+			if !ok || len(call.Args) != 1 {
+				return false
+			}
+			sel, ok := call.Fun.(*ast.SelectorExpr)
+			if !ok || sel.Sel.Name != "MustMarshalJSON" {
+				return false
+			}
+			if x, ok := sel.X.(*ast.Ident); !ok || x.Name != "ModuleCdc" {
+				return false
+			}
+			if a, ok := call.Args[0].(*ast.Ident); !ok || a.Name != msgtableRecvName(fd) {
+				return false
+			}
+			ret, ok := fd.Body.List[1].(*ast.ReturnStmt)
+			if !ok || len(ret.Results) != 1 {
+				return false
+			}
+			rc, ok := ret.Results[0].(*ast.CallExpr)
+			if !ok || len(rc.Args) != 1 {
+				return false
+			}
+			if _, nm := msgtableCallee(tp, rc); nm != "MustSortJSON" {
+				return false
+			}
+			lhs, ok := as.Lhs[0].(*ast.Ident)
+			arg, ok2 := rc.Args[0].(*ast.Ident)
+			return ok && ok2 && lhs.Name == arg.Name
+		}
+		aminoOf := func(typ string) string {
+			if !moduleCdcOnAmino || !stdSignBytes(typ) {
+				return ""
+			}
+			fns := []string{}
+			for f := range aminoEffective {
+				fns = append(fns, f)
+			}
+			sort.Strings(fns)
+			for _, f := range fns {
+				if nm, ok := aminoNames[typ+"@"+f]; ok {
+					return nm
+				}
+			}
+			return ""
+		}
+
 		// ---- module.go RegisterServices
 		mfuncs := msgtableFuncs(mp)
 		rs := mfuncs["AppModule.RegisterServices"]
@@ -480,6 +619,7 @@ func genMsgTable(c *Ctx) (string, string, error) {
 			}
 			r.signers, r.signersKnown = msgtableSigners(tp, gs)
 			r.validateCreator = msgtableValidatesCreator(tp, vb)
+			r.amino = aminoOf(typ)
 			pos := tp.Fset.Position(gs.Pos())
 			r.src = fmt.Sprintf("%s:%d", c.Rel(pos.Filename), pos.Line)
 			if obj := tp.Types.Scope().Lookup(typ); obj != nil {
@@ -559,9 +699,9 @@ func genMsgTable(c *Ctx) (string, string, error) {
 			}
 			sg = "SignerFields " + CoqList(fs)
 		}
-		fmt.Fprintf(&b, "  (* %s *)\n  {| m_module := %s; m_type := %s; m_url := %s; m_method := %s;\n     m_signers := %s; m_has_creator_field := %s;\n     m_registered := %s; m_in_desc := %s; m_desc_registered := %s;\n     m_server_method := %s; m_services_registered := %s; m_validate_checks_creator := %s |}",
+		fmt.Fprintf(&b, "  (* %s *)\n  {| m_module := %s; m_type := %s; m_url := %s; m_method := %s;\n     m_signers := %s; m_has_creator_field := %s;\n     m_registered := %s; m_in_desc := %s; m_desc_registered := %s;\n     m_server_method := %s; m_services_registered := %s; m_validate_checks_creator := %s;\n     m_amino := %s |}",
 			r.src, CoqString(r.module), CoqString(r.typ), CoqString(r.url), CoqString(r.method), sg, CoqBool(r.hasCreatorField),
-			CoqBool(r.registered), CoqBool(r.inDesc), CoqBool(r.descRegistered), CoqBool(r.serverMethod), CoqBool(r.servicesRegistered), CoqBool(r.validateCreator))
+			CoqBool(r.registered), CoqBool(r.inDesc), CoqBool(r.descRegistered), CoqBool(r.serverMethod), CoqBool(r.servicesRegistered), CoqBool(r.validateCreator), coqOptString(r.amino))
 		if i+1 < len(rows) {
 			b.WriteString(";")
 		}
